@@ -49,6 +49,14 @@ var stateNames = []string{"ground", "escape", "escape-intermediate", "csi-entry"
 // shortest prefixes entering each state
 var statePrefix = []string{"", "\x1b", "\x1b ", "\x1b[", "\x1b[1", "\x1b[ ", "\x1b[1<", "\x1bP", "\x1bP1", "\x1bP ", "\x1bPq", "\x1bP:", "\x1b]", "\x1bX", "\x1b_", "\x1bO"}
 
+// the same string states entered with some content already consumed (the parser's string bookkeeping starts
+// with the first payload byte), and the states just after a string was left by ESC or cancelled
+var contentPrefix = []struct {
+	st     rstate
+	prefix string
+}{{oscStr, "\x1b]0;t"}, {sosPm, "\x1bXt"}, {sosPm, "\x1b^t"}, {apcStr, "\x1b_Gt"}, {dcsPass, "\x1bPqd"}, {dcsIgnore, "\x1bP:d"},
+	{escape, "\x1b]0;t\x1b"}, {escape, "\x1bXt\x1b"}, {escape, "\x1bP:d\x1b"}, {ground, "\x1bXt\x18"}, {ground, "\x1bP:d\x1a"}, {ground, "\x1b]0;t\x1b\x18"}}
+
 const maxParam = 1<<31 - 1
 
 type ref struct {
@@ -631,6 +639,24 @@ func main() {
 				}
 				rec(nil, nil, 0)
 			}
+			for _, cp := range contentPrefix {
+				var rec func(suffix []byte, names []string, l int)
+				rec = func(suffix []byte, names []string, l int) {
+					k++
+					if k%n == idx {
+						in := append([]byte(cp.prefix), suffix...)
+						in = append(in, 'x')
+						checkInput(int(cp.st), in, fmt.Sprintf("after %q: ", cp.prefix)+strings.Join(names, " "))
+					}
+					if l == maxLen {
+						return
+					}
+					for _, s := range alphabet {
+						rec(append(append([]byte{}, suffix...), s.b...), append(append([]string{}, names...), s.name), l+1)
+					}
+				}
+				rec(nil, nil, 0)
+			}
 			if idx == 0 {
 				r.Sample(map[string]any{"entered_state": "csi-param", "suffix": "; : 7 m", "input": "\x1b[1;:7mx", "reads": "all 2^7 splits"})
 			}
@@ -690,7 +716,7 @@ func main() {
 	n := r.Get("parser_runs")
 	r.Finish(explore.Coverage{
 		States: -1, Transitions: n, Traces: n, Evaluations: n,
-		Rule:       "for each of the 16 parser states (entered by its shortest prefix): every suffix of <= n symbols over a 30-symbol alphabet with one or two representatives per byte class of the state table (C0, BEL, CAN, SUB, ESC, 0x20-2F, digits, ':', ';', 0x3C-3F, every state-changing final of the escape state, ordinary finals, DEL, 2/3/4-byte scalars, a combining mark, U+FFFD, an invalid byte) followed by a sentinel 'x', fed to the real ansi.Parser under every split into reads (all 2^(len-1) splits up to 6 bytes, every single split beyond); plus every CSI and DCS parameter string of <= 6 elements over {0, 7, a 19-digit number, ;, :} and 59 boundary values (all last digits next to 2^31-1, one digit more, neighbours of 2^8/2^15/2^16/2^32/2^63/2^64) bare and with leading zeros in 9 list / sub-parameter positions. Compared with an independent transcription of the vt100.net state table with the documented extensions; text runs are compared after merging Prints, each Print's width and (unsplit) cluster boundaries against uniseg. distinct = inputs that passed under all splits",
+		Rule:       "for each of the 16 parser states (entered by its shortest prefix) and 12 further prefixes (each string state with content consumed, the states just after a string was left by ESC or cancelled by CAN/SUB): every suffix of <= n symbols over a 30-symbol alphabet with one or two representatives per byte class of the state table (C0, BEL, CAN, SUB, ESC, 0x20-2F, digits, ':', ';', 0x3C-3F, every state-changing final of the escape state, ordinary finals, DEL, 2/3/4-byte scalars, a combining mark, U+FFFD, an invalid byte) followed by a sentinel 'x', fed to the real ansi.Parser under every split into reads (all 2^(len-1) splits up to 6 bytes, every single split beyond); plus every CSI and DCS parameter string of <= 6 elements over {0, 7, a 19-digit number, ;, :} and 59 boundary values (all last digits next to 2^31-1, one digit more, neighbours of 2^8/2^15/2^16/2^32/2^63/2^64) bare and with leading zeros in 9 list / sub-parameter positions. Compared with an independent transcription of the vt100.net state table with the documented extensions; text runs are compared after merging Prints, each Print's width and (unsplit) cluster boundaries against uniseg. distinct = inputs that passed under all splits",
 		Exhaustive: true,
 		Bounds:     map[string]any{"suffix_len": maxLen, "alphabet": len(alphabet), "skipped_outside_alphabet": r.Get("outside_alphabet")},
 		Assumptions: []string{"the ST that ends a string is suppressed iff the string state consumed at least one character (pinned by the repository's TestOSC)",
